@@ -31,6 +31,13 @@ def gen_case(rng):
     # put some samples exactly on and next to cell faces
     if rng.random() < 0.5:
         c[0, 0] = rng.choice([0.0, 1.0, -1.0, 0.5, 63 / 64, 1 / 64], size=3)
+    if rng.random() < 0.06:
+        # an axis length within 2e-7 (relative) of a whole number of resolutions, from below or above: floor(L / res) must not be rounded
+        res = float(rng.choice([0.5, 0.75, 1.25]))
+        ks = rng.integers(2, 9, size=3)
+        eps = rng.choice([-2e-7, 2e-7, -3e-8], size=3)
+        lat = np.diag(ks * res * (1 + eps))
+        return {'lattice_name': 'near-multiple', 'lattice': lat.tolist(), 'coords': c.tolist(), 'resolution': res}
     if rng.random() < 0.03:
         # a long, thin cell: several hundred voxels along one axis (index types, strides), few along the others
         lat = np.array([[66.5, 0.0, 0.0], [0.5, 2.5, 0.0], [0.25, 0.5, 3.25]])[rng.permutation(3)]
@@ -134,6 +141,28 @@ def check_roundtrip(out: Outcome, nmax):
     out.nontrivial.add(('roundtrip', nmax))
 
 
+def check_bulk(out: Outcome, rng):
+    """more than 2^20 samples in one call (block-wise implementations must add up, not overwrite)"""
+    lat = np.array(gem.LATTICES['tric'], float)
+    T, A = 70000 + int(rng.integers(0, 5000)), 16
+    c = rng.integers(0, 64, size=(T, A, 3)) / 64
+    c[:, :4] = c[:1, :4]  # four atoms that stay in their voxel: voxels visited in every block
+    tr = gem.make_traj(c, lat, ['Li'] * A)
+    vol = trajectory_to_volume(tr, resolution=1.0)
+    data = np.array(vol.data)
+    nv = data.shape
+    idx = np.floor(c.reshape(-1, 3) * np.array(nv)).astype(int)  # exact: dyadic coordinates x small integers
+    want = np.zeros(nv, dtype=int)
+    np.add.at(want, tuple(idx.T), 1)
+    out.evaluations += 1
+    case = {'bulk': True, 'frames': T, 'atoms': A, 'lattice': lat.tolist(), 'resolution': 1.0, 'note': 're-run ./check C08 quick with the recorded seed'}
+    if int(data.sum()) != T * A:
+        out.fail('property', 'voxel-sum-equals-samples', case, expected=T * A, observed=int(data.sum()))
+    elif not np.array_equal(data, want):
+        out.fail('property', 'voxel-is-floor-of-coordinate-times-grid', case, expected='brute-force counts', observed=f'{int((data != want).sum())} voxels differ')
+    out.nontrivial.add(('bulk', T))
+
+
 def corpus():
     d = core.CORPUS / PID
     return [json.loads(p.read_text()) for p in sorted(d.glob('*.json'))] if d.exists() else []
@@ -147,11 +176,14 @@ def run(tier: str, seed: int, scale: int) -> Outcome:
     for _ in range((300 if tier == 'quick' else 3000) * scale):
         check_case(out, gen_case(rng), 'random')
     check_roundtrip(out, 2000 if tier == 'quick' else 20000)
+    check_bulk(out, rng)
     return out
 
 
 def replay(case):
     out = Outcome()
+    if case.get('bulk'):
+        return True, 'bulk case: re-run ./check C08 quick with the recorded seed'
     if 'roundtrip_n' in case:
         check_roundtrip(out, case['roundtrip_n'])
     else:
